@@ -405,7 +405,7 @@ theorem iblt_decode_contract (H : Hash) (P : Par) {n : Nat} (U : Ref → Prop) (
     simp only [envDecode, decodeAgainst, hsub, decode]
     generalize decodeLoop H P (loc.length + peer.length + 1) t [] [] [] = d
     cases d <;> rfl
-  rcases hspec with ⟨r, m, hd, _, hB⟩ | ⟨r, m, hd, hne⟩
+  rcases hspec with ⟨r, m, hd, _, hB⟩ | ⟨r, m, hd, hne, _, _⟩
   · have hres : envDecode H P n loc (.ofSet peer) = .ok m := by rw [hdef, hd]
     rw [hres]
     refine ⟨?_, fun _ => ⟨m, rfl⟩, by simp⟩
@@ -427,6 +427,47 @@ theorem iblt_decode_contract (H : Hash) (P : Par) {n : Nat} (U : Ref → Prop) (
       rw [List.filter_eq_nil_iff]
       intro x hx
       simp [(hsame x).mpr hx]
+
+/-- what `Decode` itself returns on the table left by `Subtract` (both result lists): on success `remaining` = loc∖peer and
+    `missing` = peer∖loc exactly; on ErrDecodeNotPossible the partial lists lie inside those differences (the basis of the
+    recovery promise in the doc comment of `Decode`); ErrDecodeLoop and running out of sweeps do not occur -/
+theorem iblt_decode_both_sides (H : Hash) (P : Par) {n : Nat} (U : Ref → Prop) (hn : 0 < n) (hk : 0 < P.k) (hm : 0 < P.maxChain)
+    (hF : Faithful H U) (loc peer : List Ref) (hl : loc.Nodup) (hp : peer.Nodup)
+    (hUl : ∀ x ∈ loc, U x) (hUp : ∀ x ∈ peer, U x) :
+    ∃ t, subtract (encode H P n loc) (encode H P n peer) = some t ∧
+      ((∃ r m, decode H P (loc.length + peer.length + 1) t = .ok r m ∧
+          (∀ x, x ∈ r ↔ (x ∈ loc ∧ x ∉ peer)) ∧ (∀ x, x ∈ m ↔ (x ∈ peer ∧ x ∉ loc))) ∨
+       (∃ r m, decode H P (loc.length + peer.length + 1) t = .notPossible r m ∧
+          (∀ x ∈ r, x ∈ loc ∧ x ∉ peer) ∧ (∀ x ∈ m, x ∈ peer ∧ x ∉ loc))) := by
+  obtain ⟨t, hsub, hrep⟩ := subtract_rep H P n hn hl hp
+  refine ⟨t, hsub, ?_⟩
+  have hinv : Inv H P n U (loc.filter (fun x => !peer.contains x)) (peer.filter (fun x => !loc.contains x))
+      ⟨t, [], [], [], false⟩ (loc.filter (fun x => !peer.contains x)) (peer.filter (fun x => !loc.contains x)) := by
+    refine ⟨hrep, hl.filter _, hp.filter _, ?_, ?_, ?_, ?_, ?_, ?_⟩
+    · intro x hx hx'
+      have h1 := (List.mem_filter.mp hx).1
+      have h2 := (List.mem_filter.mp hx').2
+      simp [h1] at h2
+    · intro x hx; exact hUl x (List.mem_filter.mp hx).1
+    · intro x hx; exact hUp x (List.mem_filter.mp hx).1
+    · intro r; simp
+    · intro r; simp
+    · intro r hr; cases hr
+  have hfuel : (loc.filter (fun x => !peer.contains x)).length + (peer.filter (fun x => !loc.contains x)).length
+      < loc.length + peer.length + 1 := by
+    have h1 := List.length_filter_le (fun x => !peer.contains x) loc
+    have h2 := List.length_filter_le (fun x => !loc.contains x) peer
+    omega
+  rcases decodeLoop_spec H P n U hn hk hm hF (loc.length + peer.length + 1) t [] [] [] _ _ hinv hfuel with
+    ⟨r, m, hd, hA, hB⟩ | ⟨r, m, hd, _, hA, hB⟩
+  · left
+    refine ⟨r, m, hd, ?_, ?_⟩
+    · intro x; rw [← hA x]; simp [List.mem_filter]
+    · intro x; rw [← hB x]; simp [List.mem_filter]
+  · right
+    refine ⟨r, m, hd, ?_, ?_⟩
+    · intro x hx; have := hA x hx; simpa [List.mem_filter] using this
+    · intro x hx; have := hB x hx; simpa [List.mem_filter] using this
 
 /-- garbage bytes and a table of another size are errors, as in `UnmarshalBinary` / `validate` -/
 theorem iblt_garbage_and_size_mismatch_err (H : Hash) (P : Par) (n fuel : Nat) (loc : List Ref) (peer : Table) (h : peer.length ≠ n) :
